@@ -366,6 +366,11 @@ def sub_program(case):
         return "interpreter_overflow"
     except Fragile as e:
         return str(e)
+    except KeyError as e:
+        if e.args and e.args[0] == name:
+            # a program this check has no input generator for (e.g. a helper added later): counted in the evidence, not judged
+            return "no_generator_for_program"
+        raise
     compare(name, case, got, tw, list(twins.PROXY.rounded) + list(_rounded))
     # integer width: compiled(x) == compiled(widen(x)) where the program takes any integer width
     if case["dtype"] in ("int16", "int32") and name in WIDENABLE:
@@ -445,7 +450,20 @@ def sub_large(case):
             got, tw = nj(name, (vals, nd), twin_args=(_widen(vals), nd))
         else:
             raise KeyError(name)
-    compare(name, {"dtype": "int16"}, got, tw, list(twins.PROXY.rounded) + list(_rounded))
+    # integer data, float64 / int64 accumulators: the compiled result must match the interpreter to the last float32 digits
+    for i, (g, tv) in enumerate(zip(got, tw)):
+        g, tv = _flat(g), _flat(tv)
+        req(g.shape == tv.shape, "%s: output %d shape %s vs %s" % (name, i, g.shape, tv.shape), name + " shape")
+        if g.dtype.kind in "iub":
+            ok = g.astype(np.int64) == tv.astype(np.int64)
+        else:
+            gf, tf = g.astype(np.float64), tv.astype(np.float64)
+            tol = 2 * np.spacing(np.abs(tf).astype(np.float32)).astype(np.float64) if g.dtype == np.float32 else 1e-12 * np.maximum(1.0, np.abs(tf))
+            ok = (np.abs(gf - tf) <= tol) | (np.isnan(gf) & np.isnan(tf))
+        if not ok.all():
+            q = int(np.nonzero(~ok.ravel())[0][0])
+            raise Violation("%s on %d cells: output %d differs from the interpreted source at %d of %d elements (first at %d: compiled %r, interpreted %r)" % (
+                name, n, i, int((~ok).sum()), ok.size, q, g.ravel()[q].item(), tv.ravel()[q].item()), name + " large input")
 
 
 SUBS = {"program": sub_program, "special": sub_special, "large": sub_large}
